@@ -607,7 +607,13 @@ func runJoinCase(t *rapid.T, spec joinSpec) {
 		}
 		waitNoLibGoroutines(3 * time.Second)
 	}()
-	e.installPermanentMarkers()
+	// emptyStart: the source collection is empty while the join comes up (no marker source either):
+	// the join must still become ready - selecting nothing - once both bases are; the marker
+	// sources are installed afterwards
+	emptyStart := rapid.IntRange(0, 3).Draw(t, "emptyStart") == 0
+	if !emptyStart {
+		e.installPermanentMarkers()
+	}
 	dstNames := []string{"p1", "p2", "p3", "p4", "p5", "p6"}
 	ops := map[string]func(*rapid.T){}
 	selectorChange, cycle, srcAdded, srcRemoved := false, false, false, false
@@ -658,11 +664,76 @@ func runJoinCase(t *rapid.T, spec joinSpec) {
 		}
 		e.h("destination del %s/%s", ns, name)
 	}
+	// Close before ready: with at least one base still inside its (gated) first list, a join is
+	// created and closed again before it can possibly have become ready.  "Closing the join result
+	// stops everything the join created" holds for that join too: the library goroutine count must
+	// return to the footprint of the bases alone, measured while they are frozen (gated bases wait
+	// at the gate, the others are ready with their watch established).
+	pendingFirst := map[*fakeAPI]*listReq{}
+	earlyClosed := false
+	if (gateSrc || gateDst) && rapid.IntRange(0, 2).Draw(t, "closeBeforeReady") == 0 {
+		apis := []*fakeAPI{e.src, e.dst, e.mid}
+		for i, b := range e.bases {
+			api := apis[i]
+			api.mu.Lock()
+			gated := api.gated
+			api.mu.Unlock()
+			if gated {
+				req := api.awaitListWedge()
+				if req == nil {
+					e.fail("WEDGE: base controller %d never issued its first List", i)
+				}
+				pendingFirst[api] = req
+				continue
+			}
+			e.wait(b.Ready(), fmt.Sprintf("Ready() of ungated base controller %d", i))
+			deadline := time.Now().Add(wedgeBoundNow())
+			for api.watchCount() == 0 && time.Now().Before(deadline) {
+				time.Sleep(200 * time.Microsecond)
+			}
+		}
+		footprint, stable := -1, 0
+		for i := 0; i < 2000 && stable < 5; i++ {
+			c, _ := libGoroutines()
+			if c == footprint {
+				stable++
+			} else {
+				footprint, stable = c, 0
+			}
+			time.Sleep(time.Millisecond)
+		}
+		e.createJoin()
+		if d := rapid.IntRange(0, 3).Draw(t, "earlyCloseDelay"); d > 0 {
+			time.Sleep(time.Duration(d) * 100 * time.Microsecond)
+		}
+		if isClosedCh(e.jc.Ready()) {
+			e.fail("the join is Ready() although a base controller is still inside its first list")
+		}
+		e.h("join closed before it became ready (library goroutines of the bases alone: %d)", footprint)
+		if !closeBounded(e.jc) {
+			e.fail("WEDGE: Close() of a join that is not ready yet did not return")
+		}
+		e.wait(e.jc.Done(), "Done() of a join closed before it became ready")
+		e.wait(e.j.eof, "Events() of a subscriber of a join closed before it became ready")
+		if c, dump := waitLibGoroutinesAtMost(footprint, wedgeBoundNow()); c > footprint {
+			if len(dump) > 6000 {
+				dump = dump[:6000]
+			}
+			e.fail("a join was closed before it became ready; afterwards %d goroutines created by the library are running, %d more than before the join existed: the join did not stop everything it created\n%s", c, c-footprint, dump)
+		}
+		for i, b := range e.bases {
+			if isClosedCh(b.Done()) {
+				e.fail("closing a join that was not ready shut down base controller %d", i)
+			}
+		}
+		e.jc = nil
+		earlyClosed = true
+	}
 	// first lists and readiness of the join
 	e.createJoin()
 	// pre-ready traffic goes into the first lists
 	for i := 0; i < rapid.IntRange(0, 4).Draw(t, "pre"); i++ {
-		if rapid.Bool().Draw(t, "presrc") {
+		if rapid.Bool().Draw(t, "presrc") && !emptyStart {
 			srcPut(t)
 		} else {
 			dstPut(t)
@@ -698,7 +769,10 @@ func runJoinCase(t *rapid.T, spec joinSpec) {
 		if r == "dst" {
 			api = e.dst
 		}
-		req := api.awaitListWedge()
+		req := pendingFirst[api]
+		if req == nil {
+			req = api.awaitListWedge()
+		}
 		if req == nil {
 			e.fail("WEDGE: the %s base controller never issued its first List", r)
 		}
@@ -711,7 +785,18 @@ func runJoinCase(t *rapid.T, spec joinSpec) {
 	for i, b := range e.bases {
 		e.wait(b.Ready(), fmt.Sprintf("Ready() of base controller %d", i))
 	}
-	e.wait(e.jc.Ready(), "Ready() of the join after both bases became ready")
+	e.wait(e.jc.Ready(), "Ready() of the join after both bases became ready"+map[bool]string{true: " (the source collection is empty)", false: ""}[emptyStart])
+	if emptyStart {
+		objs, err := e.jc.Cache().List()
+		if err != nil {
+			e.fail("List() on the ready join failed: %v", err)
+		}
+		if len(objs) != 0 {
+			e.fail("the join has no source object at all but its cache holds %d objects, e.g. %s", len(objs), objStr(objs[0]))
+		}
+		e.h("join ready with an empty source collection")
+		e.installPermanentMarkers()
+	}
 	// baseline of library goroutines without the join: measured by closing this first join
 	e.check("first check")
 	ops["srcPut"] = srcPut
@@ -831,7 +916,7 @@ func runJoinCase(t *rapid.T, spec joinSpec) {
 	hist := append([]string(nil), e.hist...)
 	statCase("C09", hashString(spec.name+strings.Join(hist, ";")), (selectorChange || (srcAdded && srcRemoved)) && cycle, func() interface{} {
 		return map[string]interface{}{"join": spec.name, "history": hist}
-	}, "join_"+spec.name, fmt.Sprintf("create_close_cycle=%v", cycle), fmt.Sprintf("gated_first_lists=%d", len(releases)))
+	}, "join_"+spec.name, fmt.Sprintf("create_close_cycle=%v", cycle), fmt.Sprintf("gated_first_lists=%d", len(releases)), fmt.Sprintf("empty_source_at_start=%v", emptyStart), fmt.Sprintf("join_closed_before_ready=%v", earlyClosed))
 }
 
 func diffStrings(before, after []string) (added, removed int) {
